@@ -257,9 +257,16 @@ def run_batch(cid: str, tier: str, seed: int, n_runs: int, workers: int, wall_ca
         pending: dict = {}
         nxt = first
         end = first + n_runs
-        while nxt < end or pending:
-            while nxt < end and len(pending) < workers * 2 and not capped:
-                fut = pool.submit(_task, (cid, tier, seed, nxt, None, opts, task_timeout))
+        broken = False
+        while (nxt < end and not broken) or pending:
+            while nxt < end and len(pending) < workers * 2 and not capped and not broken:
+                try:
+                    fut = pool.submit(_task, (cid, tier, seed, nxt, None, opts, task_timeout))
+                except cf.process.BrokenProcessPool:
+                    # a worker died abruptly (watchdog, a native crash, the OOM killer): this pool is finished; what is
+                    # still pending in it is collected below as lost, everything is then finished in fresh pools
+                    broken = True
+                    break
                 pending[fut] = nxt
                 nxt += 1
             if not pending:
@@ -277,15 +284,34 @@ def run_batch(cid: str, tier: str, seed: int, n_runs: int, workers: int, wall_ca
     # a worker that dies (watchdog, OOM kill) breaks the whole pool and every future still in it: give those runs one
     # more chance in a fresh, smaller pool before declaring a harness failure (a run is a pure function of its index)
     lost = [r["run_index"] for r in results if "worker died" in str(r.get("harness_error", ""))]
+    if broken and not capped and time.time() - t0 <= wall_cap:
+        lost += list(range(nxt, end))  # never submitted because the pool broke
     if lost and not opts.get("_no_retry"):
         results = [r for r in results if r["run_index"] not in set(lost)]
-        with cf.ProcessPoolExecutor(max_workers=max(2, workers // 4), mp_context=ctx, initializer=_worker_init) as pool:
-            futs = {pool.submit(_task, (cid, tier, seed, i, None, opts, task_timeout * 2)): i for i in lost}
-            for fut, idx in futs.items():
+        # one run per single-use worker process: a run that kills its worker again takes nothing else with it, and is
+        # reported by index (a run is a pure function of its index)
+        with cf.ProcessPoolExecutor(max_workers=max(2, workers // 2), mp_context=ctx, initializer=_worker_init, max_tasks_per_child=None) as pool:
+            todo = sorted(set(lost))
+            while todo:
+                batch, todo = todo[: max(2, workers // 2)], todo[max(2, workers // 2) :]
+                if time.time() - t0 > wall_cap * 1.5 and len(results) > 0:
+                    capped = True
+                    break
                 try:
-                    results.append(fut.result())
-                except Exception as e:
-                    results.append({"run_index": idx, "harness_error": f"worker died / raised twice: {e!r}"})
+                    futs = {pool.submit(_task, (cid, tier, seed, i, None, opts, task_timeout * 2)): i for i in batch}
+                except cf.process.BrokenProcessPool:
+                    for i in batch:
+                        results.append({"run_index": i, "harness_error": "worker pool broke twice"})
+                    break
+                died = False
+                for fut, idx in futs.items():
+                    try:
+                        results.append(fut.result())
+                    except Exception as e:
+                        died = True
+                        results.append({"run_index": idx, "harness_error": f"worker died / raised twice: {e!r}"})
+                if died:
+                    break
     results.sort(key=lambda r: r.get("run_index", 0))
     return results, capped
 
